@@ -731,6 +731,8 @@ class Polygon2D(Base2DIn2D):
         """Get a copy of this polygon where the vertices are reversed."""
         _new_poly = Polygon2D(tuple(pt for pt in reversed(self.vertices)))
         self._transfer_properties(_new_poly)
+        if self._area is not None:  # the cached area is signed by the vertex order
+            _new_poly._area = -self._area
         if self._is_clockwise is not None:
             _new_poly._is_clockwise = not self._is_clockwise
         return _new_poly
@@ -766,6 +768,8 @@ class Polygon2D(Base2DIn2D):
         """
         _new_poly = Polygon2D(tuple(pt.reflect(normal, origin) for pt in self.vertices))
         self._transfer_properties(_new_poly)
+        if self._area is not None:  # the cached area is signed by the vertex order
+            _new_poly._area = -self._area
         if self._is_clockwise is not None:
             _new_poly._is_clockwise = not self._is_clockwise
         return _new_poly
